@@ -75,6 +75,17 @@ def make_garbage(kind, genuine):
         except Exception:
             return genuine[:-1]
         return GARBAGE
+    if kind in ("text", "padbits"):
+        # what a wrong peer sends (an HTTP error / request line), or the genuine answer with one of the padding bits of its first
+        # octet set: not an aligned-PER NGAP PDU for the independent decoder; GARBAGE when that decoder accepts it
+        import perdec
+        cand = (b"HTTP/1.1 400 Bad Request\r\n\r\n" if (genuine is None or len(genuine) % 2) else b"GET / HTTP/1.1\r\n\r\n") if kind == "text" else (
+            bytes([genuine[0] | 0x01]) + genuine[1:] if genuine else GARBAGE)
+        try:
+            perdec.decode("ngapType.NGAPPDU", "valueExt,valueLB:0,valueUB:2", cand)
+        except Exception:
+            return cand
+        return GARBAGE
     if kind == "fill":
         # undecodable octets that fill a 2048-octet receive buffer exactly / overflow it
         return b"\xff\xfe\xfd\xfc" * 512
